@@ -41,7 +41,7 @@ const LOCALS: &[&str] = &[
 /// literal URI values (no references to decode): the reserved ones, near misses of them
 /// (suffix, missing slash, other case), and ordinary ones
 const URIS: &[&str] = &[
-    "u1", "u2", "", XML_NS, XMLNS_NS, "u1", "http://www.w3.org/1999/xhtml", "u1", "u2", "", XML_NS, XMLNS_NS,
+    "u1", "u2", "", XML_NS, XMLNS_NS, "u1", "http://www.w3.org/1999/xhtml", "u1", "u2", "", XML_NS, XMLNS_NS, "u", "v",
     "http://www.w3.org/2000/xmlns/ext", "http://www.w3.org/2000/xmlns", "HTTP://WWW.W3.ORG/2000/XMLNS/",
     "http://www.w3.org/XML/1998/namespace/2", "http://www.w3.org/XML/1998/namespac", "http://www.w3.org/2000/svg", "u 1", "ü",
     "urn:a-long-namespace-name:0123456789:abcdefghijklmnopqrstuvwxyz:0123456789:abcdefghijklmnopqrstuvwxyz",
